@@ -106,6 +106,7 @@ PROPS["C11"] = {
     "units": [
         plain("regress", "rtpconn", "TestVerif_C11_Regress_.*"),
         rapid("permission-machine", "rtpconn", "TestVerif_C11_PermissionMachine", 500, 4000),
+        rapid("whip-ingest", "webserver", "TestVerif_C11_WhipIngest", 250, 2000),
     ],
     "technique": "model-based stateful property testing (rapid) of the signalling state machine",
     "assumptions": ["processing order of queued actions is drawn; true preemption inside a handler is not explored",
@@ -115,6 +116,7 @@ PROPS["C11"] = {
 PROPS["C14"] = {
     "units": [
         rapid("userlist-machine", "rtpconn", "TestVerif_C14_UserListConvergence", 500, 4000),
+        rapid("delayed-observer", "rtpconn", "TestVerif_C14_DelayedObserver", 60, 500, shards=8),
     ],
     "technique": "model-based stateful property testing (rapid): views rebuilt from events vs true membership at quiescence",
     "assumptions": ["quiescence = all action queues drained and galene's broadcast goroutines finished (exact barrier on the goroutine dump)"],
